@@ -51,6 +51,13 @@ def contributing(t):
     return m.cls(m.observables[t])["id_contributing"]
 
 
+def timestamp_props(t):
+    if t in CUSTOM:
+        return {"when"}
+    m = M.get("2.1")
+    return {k for k, d in m.props(m.observables[t]).items() if d["kind"] == "timestamp"}
+
+
 def expected_ids(out):
     """Set of acceptable ids for serialized observable `out` (usually one), or None if no contributing property is present."""
     t = out["type"]
@@ -106,6 +113,30 @@ def build(doc, how):
     if how == "constructor":
         cls = registry.class_for_type(doc["type"], "2.1", "observables")
         kw = {k: v for k, v in doc.items() if k != "type"}
+        return core.guarded(cls, allow_custom=True, **kw)
+    if how.startswith("constructor-stixdt:"):
+        # timestamps handed over as STIXdatetime objects that still carry the formatting tags of the property they were taken from
+        # (e.g. another object's created / modified): the value is the same instant, so the id must be the same
+        import datetime as dt
+        from stix2.utils import STIXdatetime
+        from oracle import tsref
+        prec, cons = how.split(":")[1].split("/")
+        cls = registry.class_for_type(doc["type"], "2.1", "observables")
+        kw = {}
+        for k, v in doc.items():
+            if k == "type":
+                continue
+            if k in timestamp_props(doc["type"]) and isinstance(v, str):
+                try:
+                    t, nd, extra = tsref.parse(v)
+                except ValueError:
+                    t, extra = None, True
+                if not extra:
+                    days, rem = divmod(t, tsref.US_PER_DAY)
+                    y, mo, dd = tsref.civil_from_days(days)
+                    secs, us = divmod(rem, 10 ** 6)
+                    v = STIXdatetime(dt.datetime(y, mo, dd, secs // 3600, secs % 3600 // 60, secs % 60, us, tzinfo=dt.timezone.utc), precision=prec, precision_constraint=cons)
+            kw[k] = v
         return core.guarded(cls, allow_custom=True, **kw)
     if how == "observed-data-member":
         od = {"type": "observed-data", "spec_version": "2.1", "id": "observed-data--6e2d1f6a-3b0f-4a5c-8d53-1c0b8b3a9f10",
@@ -197,6 +228,11 @@ def check_case(case):
 # ---- strategies --------------------------------------------------------------------------------------------------
 OPTS = {"ts_max_digits": 6, "selectors": "none", "max_optional": 7}
 ROUTES = ["parse-text", "parse_observable", "constructor", "observed-data-member"]
+STIXDT_ROUTES = ["constructor-stixdt:millisecond/min", "constructor-stixdt:millisecond/exact", "constructor-stixdt:second/exact", "constructor-stixdt:second/min"]
+# member names on which UTF-16 code-unit order (RFC 8785) and code-point order disagree, plus escapes
+ORDER_KEYS = ["\ue000", "\U0001f600\ue000", "\ufb33", "\U0001f600", "\uffff", "\U00010000", "a", "\u00e9", "\"q", "\\", "\u0001", "\ud7ff", "Z"]
+ORDER_BODY = st.dictionaries(st.sampled_from(ORDER_KEYS), st.one_of(st.integers(0, 3), st.sampled_from(["v", "\U0001f600"]),
+                                                                    st.dictionaries(st.sampled_from(ORDER_KEYS), st.integers(0, 3), min_size=2, max_size=4)), min_size=2, max_size=5)
 
 
 @st.composite
@@ -212,6 +248,8 @@ def custom_doc(draw):
             doc["data"] = draw(st.dictionaries(st.one_of(st.sampled_from(["a", "B", "k_1", "z-z"]), st.text(st.sampled_from(list("abcXYZ_-09")), min_size=1, max_size=5)),
                                                st.one_of(V.mixed_text(2), st.integers(-2 ** 62, 2 ** 62), st.booleans(), V.any_finite_float.filter(lambda f: abs(f) < 1e300),
                                                          st.lists(st.integers(0, 3), min_size=1, max_size=2)), min_size=1, max_size=3))
+        if "data" in doc and draw(st.booleans()):
+            doc["data"]["nested"] = draw(ORDER_BODY)
         if draw(st.booleans()):
             doc["num"] = draw(V.any_finite_float.filter(lambda f: abs(f) < 1e300))
         if draw(st.booleans()):
@@ -233,6 +271,10 @@ def case_strategy(draw):
         doc = draw(G.valid_object("2.1", type_=t, opts=opts))
         doc.pop("id", None)
         doc.pop("granular_markings", None)
+        if "extensions" in contributing(t) and draw(st.integers(0, 2)) == 0:
+            # free-form body of an unregistered extension-definition extension among the contributing properties
+            body = dict(draw(ORDER_BODY), extension_type="property-extension")
+            doc.setdefault("extensions", {})["extension-definition--" + draw(st.sampled_from(["3f2504e0-4f89-41d3-9a0c-0305e82c3301", "7e4ba2c2-6b3e-4a0f-9a6e-0e2f5f5d0a11"]))] = body
     t = doc["type"]
     contrib = contributing(t)
     edits = []
@@ -258,7 +300,10 @@ def case_strategy(draw):
             edits.append({"op": "set", "prop": p, "value": new, "contributing": p in contrib})
     if "defanged" not in doc:
         edits.append({"op": "set", "prop": "defanged", "value": True, "contributing": False})
-    case = {"doc": doc, "routes": draw(st.lists(st.sampled_from(ROUTES), min_size=1, max_size=3, unique=True)),
+    routes = draw(st.lists(st.sampled_from(ROUTES), min_size=1, max_size=3, unique=True))
+    if any(k in doc for k in timestamp_props(t)):
+        routes.append(draw(st.sampled_from(STIXDT_ROUTES)))
+    case = {"doc": doc, "routes": routes,
             "perms": draw(st.lists(st.sampled_from(["reverse", "sorted", "rotate"]), min_size=1, max_size=2, unique=True)),
             "perm_route": draw(st.sampled_from(["parse", "constructor"])), "edits": edits}
     return case
@@ -272,6 +317,11 @@ def classes_of(case):
     cl.extend("contrib:" + k for k in present if k in ("hashes", "extensions", "start", "end", "when", "data", "num", "values", "protocols"))
     f = G.features({k: doc[k] for k in present})
     cl.extend(sorted(f))
+    if rfc8785_order_matters({k: doc[k] for k in present}):
+        cl.append("val:utf16-order-differs-from-code-point-order")
+    cl.extend("route:" + r.split(":")[0] for r in case["routes"])
+    if any(r.startswith("constructor-stixdt") for r in case["routes"]) and any(k in present for k in timestamp_props(doc["type"])):
+        cl.append("contributing-timestamp-as-tagged-STIXdatetime")
     if any(e["contributing"] for e in case["edits"]):
         cl.append("edit:contributing")
     if any(not e["contributing"] for e in case["edits"]):
@@ -279,7 +329,18 @@ def classes_of(case):
     return cl
 
 
-NT = {"str:astral", "str:control", "str:bmp-nonascii", "str:quote-backslash", "contrib:hashes", "contrib:extensions", "contrib:start", "contrib:end",
+def rfc8785_order_matters(v):
+    if isinstance(v, dict):
+        ks = list(v)
+        if sorted(ks) != sorted(ks, key=lambda k: k.encode("utf-16-be")):
+            return True
+        return any(rfc8785_order_matters(x) for x in v.values())
+    if isinstance(v, list):
+        return any(rfc8785_order_matters(x) for x in v)
+    return False
+
+
+NT = {"val:utf16-order-differs-from-code-point-order", "contributing-timestamp-as-tagged-STIXdatetime", "str:astral", "str:control", "str:bmp-nonascii", "str:quote-backslash", "contrib:hashes", "contrib:extensions", "contrib:start", "contrib:end",
       "contrib:when", "contrib:data", "contrib:num", "val:int>2^53", "contrib:values"}
 
 
@@ -288,7 +349,8 @@ def run(ctx):
     ctx.rule = ("every 2.1 SCO type (spec-model generator: random/minimal/maximal optional subsets incl. extensions, hashes in several "
                 "spellings, timestamps at all precisions) and two harness-registered custom observables (floats, big ints, dictionaries "
                 "with astral/escaped strings among the contributing properties), created without id; x routes (parse dict/text, "
-                "parse_observable, constructor, observed-data member) x member-order permutations x edits of contributing / "
+                "parse_observable, constructor, constructor with timestamps as STIXdatetime objects carrying foreign precision tags, observed-data member; "
+                "free-form extension bodies / nested dictionaries whose member names sort differently by UTF-16 code unit and by code point) x member-order permutations x edits of contributing / "
                 "non-contributing properties x round trips. Non-trivial = a contributing property is present whose value needs escaping, "
                 "number formatting, hash selection, nested extensions or timestamp normalisation; distinct = distinct case.")
     ctx.assumptions = ["contributing-property lists come from the frozen model (specmodel/v21.json)", "oracle/rfc8785.py for the canonical text; uuid.uuid5 from the standard library",
@@ -304,6 +366,8 @@ def run(ctx):
         ctx.handle(case, fails)
 
     core.run_given(ctx, case_strategy(), body, ctx.n(3500, 9000), label="c06-main")
+    if ctx.evaluations >= 1000:
+        core.health(ctx, ["val:utf16-order-differs-from-code-point-order", "contributing-timestamp-as-tagged-STIXdatetime", "contrib:extensions", "contrib:hashes"], share=0.003)
 
 
 def replay(case):
